@@ -180,6 +180,26 @@ func (p *IdentityProvider) ssoHandleFunc(w http.ResponseWriter, r *http.Request)
 		},
 	)
 
+	// an embedded signature has to be valid as well when the request was sent with the redirect binding
+	checkerInstance.WithConditionalLogicStep(
+		func() bool {
+			return authRequestForm.Binding == RedirectBinding &&
+				signaturePostProvided(func() *xml_dsig.SignatureType { return authNRequest.Signature })()
+		},
+		func() error {
+			data, errDecode := xml.InflateAndDecode(authRequestForm.Encoding, true, authRequestForm.AuthRequest)
+			if errDecode != nil {
+				err = errDecode
+				return err
+			}
+			err = sp.ValidatePostSignature(string(data))
+			return err
+		},
+		func() {
+			response.sendBackResponse(r, w, response.makeFailedResponse(StatusCodeRequestDenied, fmt.Errorf("failed to verify signature: %w", err).Error(), p.TimeFormat))
+		},
+	)
+
 	// work out used acs url and protocolbinding for response
 	checkerInstance.WithValueStep(
 		func() {
